@@ -51,7 +51,7 @@ Denotes(prop, v) ==
     [] prop = "sheet" -> IF v.kind = "int" /\ v.n >= 1 THEN <<"ok", v.n>> ELSE <<"bad">>
     [] prop = "quoting" -> IF v.kind = "name" /\ v.name \in {"all", "minimal"} THEN <<"ok", v.name>> ELSE <<"bad">>
     [] prop = "skip_initial_space" -> IF v.kind = "name" /\ v.name \in {"true", "false"} THEN <<"ok", v.name>> ELSE <<"bad">>
-    [] prop = "allowed_characters" -> IF v.kind = "name" /\ v.name = "range" THEN <<"ok", "range">> ELSE <<"bad">>
+    [] prop = "allowed_characters" -> IF v.kind = "name" /\ v.name \in {"range", "letters"} THEN <<"ok", v.name>> ELSE <<"bad">>
     [] OTHER -> <<"bad">>
 \* the one format-specific extra: "none" names "no line delimiter" for fixed data only
 DenotesFor(fmt, prop, v) ==
